@@ -113,7 +113,7 @@ def transparent(case):
     if not (case.label.startswith("gen:") or case.label.startswith("cmtstyle:")):
         return False
     d = case.data
-    return not re.search(rb"\\[ \t]*[\r\n]", d) and b"INDENT-O" not in d and len(d) < 30000
+    return b"INDENT-O" not in d and len(d) < 30000
 
 
 def ask_nlauto(R, m):
